@@ -40,7 +40,7 @@ impl Ctx {
     }
 
     /// request: (text (offset ...)) ; level 0 is against the resource, level k against the annotation of level k-1.
-    /// per level two sub-cases: [annotate path] (1 b e text reports) | (0) | (9) | (2), [FindText::textselection path] (1 b e) | (0) | (9) | (2)
+    /// per level two sub-cases: [annotate path] (1 b e text reports) | (0) | (9) | (2), [FindText::textselection + Text::text_by_offset path] (1 b e text) | (0) | (9) | (2)
     pub fn exec(&self, req: &Sx) -> (Sx, Vec<Sx>, bool) {
         if let Sx::A(7) = req.nth(0) {
             return self.exec_pairs(req);
@@ -61,14 +61,15 @@ impl Ctx {
                 continue;
             }
             // path 2 first (read-only): FindText::textselection on the resource / the parent's selection
+            // ... and Text::text_by_offset on the same receiver: accepted exactly when the selection is, with its text
             let p2 = guard(|| {
                 if level == 0 {
                     let res = store.resource("r").unwrap();
-                    res.textselection(off).ok().map(|t| (t.begin(), t.end()))
+                    (res.textselection(off).ok().map(|t| (t.begin(), t.end())), res.text_by_offset(off).ok().map(|s| s.to_string()))
                 } else {
                     let parent = store.annotation(format!("A{}", level - 1).as_str()).unwrap();
                     let pts = parent.textselections().next().unwrap();
-                    pts.textselection(off).ok().map(|t| (t.begin(), t.end()))
+                    (pts.textselection(off).ok().map(|t| (t.begin(), t.end())), pts.text_by_offset(off).ok().map(|s| s.to_string()))
                 }
             });
             // path 1: annotate
@@ -128,8 +129,11 @@ impl Ctx {
             }
             outs.push(match p2 {
                 None => l(vec![a(2)]),
-                Some(None) => l(vec![a(0)]),
-                Some(Some((b, e))) => l(vec![a(1), a(b as i64), a(e as i64)]),
+                Some((None, None)) => l(vec![a(0)]),
+                Some((Some((b, e)), Some(txt))) => l(vec![a(1), a(b as i64), a(e as i64), text_sx(&txt)]),
+                // the two entry points disagree about acceptance
+                Some((Some((b, e)), None)) => l(vec![a(3), a(b as i64), a(e as i64)]),
+                Some((None, Some(txt))) => l(vec![a(4), text_sx(&txt)]),
             });
         }
         (req.clone(), outs, accepted > 0)
